@@ -349,3 +349,24 @@ def allowed_variants(allowed, allv, names):
         elif v < len(names):
             out.add(names[v])
     return out
+
+
+def transforming_calls(body, op, tr=None, depth=0, seen=None):
+    """Names of the calls a value passes through between its roots (parameters / call results that are not looked through)
+    and `op`, other than the value-transparent ones (references, deref/as_ref/borrow, clone, `?`, `.await`, map_err ...).
+    Returns (root_locals, [call terminators]) — an empty list means the value reaches `op` unmodified."""
+    tr = tr or value_tracer(body)
+    seen = seen if seen is not None else set()
+    roots, calls = set(), []
+    for s in tr.sources(op):
+        while s[0] == "field":
+            s = s[1]
+        if s[0] == "arg":
+            roots.add(s[1])
+        elif s[0] == "call":
+            if s[1] in seen or depth > 12:
+                continue
+            seen.add(s[1])
+            t = body.blocks[s[1]]["t"]
+            calls.append(t)
+    return roots, calls
